@@ -234,32 +234,63 @@ namespace {
   }
 
   // ---------------------------------------------------------------- analytic integrands
-  struct Analytic {
-    int kind;
-    //! g(y)
-    R operator()(const R y) const {
-      switch (kind) {
-        case 0: return std::exp(-y);
-        case 1: return y * std::exp(-y);
-        case 2: return 1 / ((1 + y) * (1 + y));
-        case 3: return 1 / (1 + y * y);
-        case 4: return std::exp(-y * y);
-        default: return 1 / ((1 + y) * (1 + y) * (1 + y));
+  /*
+   * "integrands whose Kronrod error estimate is reliable" is made operational:
+   * the harness runs its own copy of the documented scheme (docs/web/
+   * tfel-math-numerical-integration.md: 15 point Kronrod value, |K15-G7| as
+   * estimate, bisection with the tolerance halved on each side, bounded depth)
+   * in long double with 33-digit QUADPACK constants on the documented change
+   * of variable, and compares on every accepted leaf the estimate with the
+   * TRUE leaf error (exact antiderivative).  The estimate is called reliable
+   * on a run when every accepted leaf has true error <= estimate.  Only then
+   * is |I - I*| <= requested tolerance demanded.  Runs in which a refinement
+   * decision is within rounding of the threshold are skipped (the tree of the
+   * double precision code may legitimately differ).
+   */
+  struct Leaf {
+    R c, d, k15, est;
+  };
+  struct RefGK {
+    std::function<R(R)> ut;  // mapped integrand u(t)
+    R margin = 0;            // rounding scale of an estimate
+    std::vector<Leaf> leaves;
+    bool exhausted = false, borderline = false;
+    void rule(const R c, const R d, R& k15, R& e) const {
+      static const R xgk[8] = {0.991455371120812639206854697526329L, 0.949107912342758524526189684047851L,
+                               0.864864423359769072789712788640926L, 0.741531185599394439863864773280788L,
+                               0.586087235467691130294144838258730L, 0.405845151377397166906606412076961L,
+                               0.207784955007898467600689403773245L, 0.L};
+      static const R wgk[8] = {0.022935322010529224963732008058970L, 0.063092092629978553290700663189204L,
+                               0.104790010322250183839876322541518L, 0.140653259715525918745189590510238L,
+                               0.169004726639267902826583426598550L, 0.190350578064785409913256402421014L,
+                               0.204432940075298892414161999234649L, 0.209482141084727828012999174891714L};
+      static const R wg[4] = {0.129484966168869693270611432679082L, 0.279705391489276667901467771423780L,
+                              0.381830050505118944950369775488975L, 0.417959183673469387755102040816327L};
+      const R mid = (c + d) / 2, hw = (d - c) / 2;
+      R k = wgk[7] * ut(mid), g = wg[3] * ut(mid);
+      for (int i = 0; i < 7; ++i) {
+        const R s = ut(mid - hw * xgk[i]) + ut(mid + hw * xgk[i]);
+        k += wgk[i] * s;
+        if (i % 2 == 1) g += wg[i / 2] * s;
+      }
+      k15 = k * hw;
+      e = std::fabs(k15 - g * hw);
+    }
+    void run(const R c, const R d, const R tol, const std::size_t n) {
+      if (n == 0) {
+        exhausted = true;
+        return;
+      }
+      R k15, e;
+      rule(c, d, k15, e);
+      if (std::fabs(e - tol) <= margin) borderline = true;
+      if (e > tol) {
+        run(c, (c + d) / 2, tol / 2, n - 1);
+        run((c + d) / 2, d, tol / 2, n - 1);
+      } else {
+        leaves.push_back({c, d, k15, e});
       }
     }
-    //! int_{y0}^{inf} g, y0 >= 0
-    R tail(const R y0) const {
-      switch (kind) {
-        case 0: return std::exp(-y0);
-        case 1: return (y0 + 1) * std::exp(-y0);
-        case 2: return 1 / (1 + y0);
-        case 3: return ref::pi / 2 - std::atan(y0);
-        case 4: return std::sqrt(ref::pi) / 2 * std::erfc(y0);
-        default: return 1 / (2 * (1 + y0) * (1 + y0));
-      }
-    }
-    //! max |g'| on [0,inf) (for the rounding of the abscissa)
-    R lip() const { return kind == 5 ? 3 : (kind == 2 ? 2 : 1); }
   };
 
   void gkAnalytic(verif::Case& c) {
@@ -267,42 +298,78 @@ namespace {
     const double inf = std::numeric_limits<double>::infinity();
     const double A = c.chance(1, 3, "unit_amp") ? 1. : c.log10real(-3, 3, "amp") * (c.boolean("neg") ? -1 : 1);
     const double s = c.real(0.4, 2.5, "s");
-    const double atolr = c.log10real(-11, -4, "atol");
-    const std::size_t nref = static_cast<std::size_t>(c.integer(4, 14, "nref"));
+    const double atolr = c.log10real(-11, -1, "atol");
+    const std::size_t nref = static_cast<std::size_t>(c.integer(1, 14, "nref"));
     const auto shape = c.pick(4, "interval_kind");
-    R exact = 0, scale = 0, lipx = 0;
+    R exact = 0, scale = 0, lipx = 0, factor = 1;
     double a = 0, b = 0;
-    std::function<double(double)> f;
+    std::function<R(R)> fl;      // integrand, long double
+    std::function<R(R)> xoft;    // documented change of variable x(t) (identity on finite intervals)
+    std::function<R(R)> woft;    // dx/dt up to `factor`
+    std::function<R(R, R)> part; // exact integral of the integrand over x(t) for t in [c,d]
+    R tlo = -1, thi = 1;
     if (shape == 0 || shape == 1) {
-      // half infinite: [a,inf) or (-inf,b], integrand A g((x-a)/s+y0)/s
-      const Analytic g{static_cast<int>(c.pick(6, "g"))};
+      // half infinite: [x0,inf) or (-inf,x0], integrand A g(|x-x0|/s+y0)/s
+      static const int kinds = 6;
+      const int kind = static_cast<int>(c.pick(kinds, "g"));
       const double y0 = c.chance(1, 2, "y0_zero") ? 0. : c.real(0, 2, "y0");
       const double x0 = c.chance(1, 2, "x0_zero") ? 0. : c.sreal(50, "x0");
       const bool use_max = c.chance(1, 3, "max_as_infinity");
       const double big = use_max ? std::numeric_limits<double>::max() : inf;
+      auto g = [kind](const R y) -> R {
+        switch (kind) {
+          case 0: return std::exp(-y);
+          case 1: return y * std::exp(-y);
+          case 2: return 1 / ((1 + y) * (1 + y));
+          case 3: return 1 / (1 + y * y);
+          case 4: return std::exp(-y * y);
+          default: return 1 / ((1 + y) * (1 + y) * (1 + y));
+        }
+      };
+      auto tail = [kind](const R y) -> R {  // int_y^inf g
+        if (std::isinf(static_cast<double>(y))) return 0;
+        switch (kind) {
+          case 0: return std::exp(-y);
+          case 1: return (y + 1) * std::exp(-y);
+          case 2: return 1 / (1 + y);
+          case 3: return ref::pi / 2 - std::atan(y);
+          case 4: return std::sqrt(ref::pi) / 2 * std::erfc(y);
+          default: return 1 / (2 * (1 + y) * (1 + y));
+        }
+      };
+      const R lip = kind == 5 ? 3 : (kind == 2 ? 2 : 1);
+      const R sgn = shape == 0 ? 1 : -1;
       if (shape == 0) {
         c.tag("interval.right_unbounded");
         a = x0;
         b = big;
-        f = [=](const double x) { return static_cast<double>(A * g((R(x) - R(x0)) / s + y0) / s); };
       } else {
         c.tag("interval.left_unbounded");
         a = -big;
         b = x0;
-        f = [=](const double x) { return static_cast<double>(A * g((R(x0) - R(x)) / s + y0) / s); };
       }
-      exact = A * g.tail(y0);
-      scale = std::fabs(R(A)) * g.tail(0) ;
-      lipx = std::fabs(R(A)) * g.lip() * std::fabs(R(x0)) / s;
+      fl = [=](const R x) { return A * g(sgn * (x - R(x0)) / s + y0) / s; };
+      // documented: u(x) = a + (2/(1+t) - 1)   resp.  b - (2/(1+t) - 1);  the code integrates f z^2 and doubles
+      xoft = [=](const R t) { return R(x0) + sgn * (2 / (t + 1) - 1); };
+      woft = [=](const R t) { return 1 / ((t + 1) * (t + 1)); };
+      factor = 2;
+      part = [=](const R tc, const R td) {
+        // distance to x0 decreases with t
+        auto yy = [&](const R t) { return t <= -1 ? R(INFINITY) : (2 / (t + 1) - 1) / s + y0; };
+        return A * (tail(yy(td)) - tail(yy(tc)));
+      };
+      exact = A * tail(y0);
+      scale = std::fabs(R(A)) * tail(0);
+      lipx = std::fabs(R(A)) * lip * std::fabs(R(x0)) / s;
     } else if (shape == 2) {
       c.tag("interval.unbounded");
-      const auto k = c.pick(4, "g2");
+      const int k = static_cast<int>(c.pick(4, "g2"));
       const double m = c.sreal(1, "m");
       const bool use_max = c.chance(1, 3, "max_as_infinity");
       a = use_max ? -std::numeric_limits<double>::max() : -inf;
       b = use_max ? std::numeric_limits<double>::max() : inf;
-      f = [=](const double x) {
-        const R y = (R(x) - m) / s;
+      fl = [=](const R x) {
+        const R y = (x - m) / s;
         R v = 0;
         switch (k) {
           case 0: v = 1 / (1 + y * y); break;
@@ -313,29 +380,43 @@ namespace {
             v = std::isfinite(static_cast<double>(ch)) ? 1 / (ch * ch) : 0;
           }
         }
-        return static_cast<double>(A * v / s);
+        return A * v / s;
       };
-      const R vals[4] = {ref::pi, std::sqrt(ref::pi), ref::pi / 2, 2};
-      exact = A * vals[k];
+      auto prim = [=](const R x) -> R {
+        const bool isinf = std::isinf(static_cast<double>(x));
+        const R y = isinf ? x : (x - m) / s;
+        switch (k) {
+          case 0: return std::atan(y);
+          case 1: return std::sqrt(ref::pi) / 2 * std::erf(y);
+          case 2: return ((isinf ? 0 : y / (1 + y * y)) + std::atan(y)) / 2;
+          default: return std::tanh(y);
+        }
+      };
+      xoft = [](const R t) { return std::fabs(t) >= 1 ? (t > 0 ? R(INFINITY) : -R(INFINITY)) : t / (1 - t * t); };
+      woft = [](const R t) { return (1 + t * t) / ((1 - t * t) * (1 - t * t)); };
+      part = [=](const R tc, const R td) { return A * (prim(xoft(td)) - prim(xoft(tc))); };
+      exact = A * (prim(INFINITY) - prim(-INFINITY));
       scale = std::fabs(exact);
       lipx = 0;
     } else {
       c.tag("interval.finite");
-      const auto k = c.pick(4, "g3");
+      const int k = static_cast<int>(c.pick(4, "g3"));
       const double m = c.sreal(2, "m");
       a = m + s * c.sreal(4, "ya");
       b = m + s * c.sreal(4, "yb");
-      f = [=](const double x) {
-        const R y = (R(x) - m) / s;
+      if (a > b) std::swap(a, b);
+      if (!(a < b)) c.discard();
+      fl = [=](const R x) -> R {
+        const R y = (x - m) / s;
         switch (k) {
-          case 0: return static_cast<double>(A * std::exp(y) / s);
-          case 1: return static_cast<double>(A * std::cos(y) / s);
-          case 2: return static_cast<double>(A / (1 + y * y) / s);
-          default: return static_cast<double>(A * std::exp(-y * y) / s);
+          case 0: return A * std::exp(y) / s;
+          case 1: return A * std::cos(y) / s;
+          case 2: return A / (1 + y * y) / s;
+          default: return A * std::exp(-y * y) / s;
         }
       };
-      auto F = [&](const double x) {
-        const R y = (R(x) - m) / s;
+      auto F = [=](const R x) -> R {
+        const R y = (x - m) / s;
         switch (k) {
           case 0: return std::exp(y);
           case 1: return std::sin(y);
@@ -343,24 +424,57 @@ namespace {
           default: return std::sqrt(ref::pi) / 2 * std::erf(y);
         }
       };
+      xoft = [](const R t) { return t; };
+      woft = [](const R) { return R(1); };
+      tlo = a;
+      thi = b;
+      part = [=](const R tc, const R td) { return A * (F(td) - F(tc)); };
       exact = A * (F(b) - F(a));
       R mx = 0;
-      for (int i = 0; i <= 16; ++i) mx = std::max(mx, std::fabs(R(f(a + (b - a) * i / 16.))));
+      for (int i = 0; i <= 16; ++i) mx = std::max(mx, std::fabs(fl(R(a) + (R(b) - R(a)) * i / 16)));
       scale = mx * std::fabs(R(b) - R(a)) + std::fabs(exact);
       lipx = mx * 4 * std::max(std::fabs(R(a)), std::fabs(R(b))) / s;
     }
+    auto f = [&fl](const double x) { return static_cast<double>(fl(static_cast<R>(x))); };
+    c.nontrivial(true);
+    const double atol = static_cast<double>(scale) * atolr;
+    const R rounding = KQ * u * (20 * scale + lipx);
+    // ---- reference run of the documented scheme: is the estimate reliable here?
+    RefGK rg;
+    rg.ut = [&](const R t) {
+      const R x = xoft(t);
+      const R v = fl(x) * woft(t);
+      return std::isfinite(static_cast<double>(v)) ? v : R(0);
+    };
+    rg.margin = rounding / factor;
+    rg.run(tlo, thi, atol, nref);
+    bool reliable = !rg.exhausted;
+    R worst = 0;
+    for (const auto& l : rg.leaves) {
+      const R truth = part(l.c, l.d) / factor;
+      const R err = std::fabs(l.k15 - truth);
+      if (l.est > 0) worst = std::max(worst, err / l.est);
+      if (err > l.est + 1e-17L * scale + 1e-300L) reliable = false;
+    }
+    c.tag(rg.exhausted ? "ref.refinements_exhausted" : (reliable ? "ref.estimate_reliable" : "ref.estimate_unreliable"));
+    if (rg.borderline) c.tag("ref.borderline_decision");
+    if (rg.leaves.size() > 1) c.tag("ref.refined");
     const bool swapped = c.chance(1, 5, "swapped");
     if (swapped) {
       std::swap(a, b);
       exact = -exact;
     }
-    c.nontrivial(true);
-    const double atol = static_cast<double>(scale) * atolr;
-    const R rounding = KQ * u * (20 * scale + lipx);
     const auto o = gauss_kronrod_integrate(f, a, b, {.absolute_tolerance = atol, .maximum_number_of_refinements = nref});
     if (o.has_value()) {
       c.tag("adaptive.value");
-      c.close(*o, exact, atol + rounding, "C12.gk.analytic.within_tolerance", "adaptive integral of the analytic family");
+      if (reliable && !rg.borderline) {
+        const std::string cls = shape <= 1 ? ".half_infinite" : (shape == 2 ? ".infinite" : ".finite");
+        std::ostringstream os;
+        os.precision(17);
+        os << "adaptive integral, estimate reliable on all " << rg.leaves.size() << " leaves (worst true error/estimate "
+           << static_cast<double>(worst) << "), requested tolerance " << atol;
+        c.close(*o, exact, atol + rounding, "C12.gk.analytic.within_tolerance" + cls, os.str());
+      }
     } else {
       c.tag("adaptive.no_value");
     }
